@@ -506,6 +506,30 @@ func c13(c *Ctx) {
 			okShort := m.EntailsLE(Term{lenList, 2}, Term{lenTyps, 0})
 			r.Check(okShort, "C13.R9", "variadic list refused only when too short in "+shortName(f)+" at "+blockOrdinalRet(ret), p.Pos(posOf(ret)), "failure implies len(list) <= len(types)-2",
 				"for a variadic function the list converter refuses a list that covers all fixed parameters (and lets a too-short one through): well-formed When/Return calls fail, short ones index past the end")
+			// and conversely: past the innermost length test that leads here, the list covers the fixed parameters
+			var inner *Guard
+			gsHere := guardsAt(ret.Block())
+			for gi := range gsHere {
+				g := gsHere[gi]
+				if bo, ok := g.Cond.(*ssa.BinOp); ok && g.If != nil {
+					for _, side := range []ssa.Value{bo.X, bo.Y} {
+						if t := k.TermOf(side); t.Var == lenList {
+							if inner == nil || inner.If.Block().Dominates(g.If.Block()) {
+								inner = &gsHere[gi]
+							}
+						}
+					}
+				}
+			}
+			if inner != nil {
+				gs := append([]Guard{}, guardsAt(inner.If.Block())...)
+				gs = append(gs, Guard{Cond: inner.Cond, Pol: !inner.Pol, If: inner.If})
+				m2 := NewDBM()
+				guardListToDBM(m2, k, gs)
+				okLong := m2.EntailsLE(Term{lenTyps, -1}, Term{lenList, 0})
+				r.Check(okLong, "C13.R9", "variadic list accepted only when it covers the fixed parameters in "+shortName(f)+" at "+blockOrdinalRet(ret), p.Pos(posOf(inner.If)), "passing the test implies len(list) >= len(types)-1",
+					"for a variadic function the list converter lets through a list that is too short to cover the fixed parameters: the missing positions are indexed past the end or matched against nothing")
+			}
 		}
 	}
 	r.Stat("variadic_count_checks", nConv)
